@@ -213,3 +213,48 @@ func init() {
 		sc.Empty(5 * time.Second)
 	}
 }
+
+func init() {
+	// C18: a swap request is dry-run when its tx is delivered and executed at the end of the block WITHOUT a panic guard;
+	// a later tx of the same block (a large exit, which the lock-up of an hour allows after two hours) shrinks the reserve
+	// the queued swap was sized against.
+	scenarios["c18-queued-swap-after-exit"] = func(sc *Scn) {
+		w := sc.w
+		trader, lp := w.Accts[2], w.Accts[0]
+		sc.Empty(2 * time.Hour)
+		for _, frac := range []int64{30, 90, 1000, 30000} {
+			for _, pi := range []int{2, 3} {
+				pool := sc.std.Pools[pi]
+				ctx := w.Ctx()
+				ammPool, _ := w.App.AmmKeeper.GetPool(ctx, pool.Id)
+				var usdc, atom math.Int
+				for _, a := range ammPool.PoolAssets {
+					if a.Token.Denom == "uusdc" {
+						usdc = a.Token.Amount
+					} else {
+						atom = a.Token.Amount
+					}
+				}
+				_ = atom
+				lpc := w.App.CommitmentKeeper.GetCommitments(ctx, lp.Addr)
+				have := lpc.GetCommittedAmountForDenom(pool.ShareDen)
+				swapAmt := usdc.MulRaw(frac).QuoRaw(100)
+				t1 := &histTx{kind: "amm.swapIn", f: J{"pool": pool.Id, "in": []string{"uusdc", swapAmt.String()}, "signer": trader.Addr.String(), "fee": [][]string{}},
+					req: TxReq{Signer: trader, Msgs: []sdk.Msg{&ammtypes.MsgSwapExactAmountIn{Sender: trader.Addr.String(), Routes: []ammtypes.SwapAmountInRoute{{PoolId: pool.Id, TokenOutDenom: "uatom"}},
+						TokenIn: sdk.NewCoin("uusdc", swapAmt), TokenOutMinAmount: math.OneInt(), Recipient: trader.Addr.String()}}}}
+				exitShares := have.MulRaw(999).QuoRaw(1000)
+				t2 := &histTx{kind: "amm.exit", f: J{"pool": pool.Id, "shareIn": exitShares.String(), "signer": lp.Addr.String(), "fee": [][]string{}},
+					req: TxReq{Signer: lp, Msgs: []sdk.Msg{&ammtypes.MsgExitPool{Sender: lp.Addr.String(), PoolId: pool.Id, MinAmountsOut: sdk.Coins{}, ShareAmountIn: exitShares}}}}
+				if !emitBlock(w, sc.out, sc.id, []*histTx{t1, t2}, 5*time.Second, sc.stats) {
+					return
+				}
+				// put the liquidity back for the next round
+				ctx = w.Ctx()
+				bal := w.App.BankKeeper.GetAllBalances(ctx, lp.Addr)
+				join := sdk.NewCoins(sdk.NewCoin("uusdc", math.MinInt(bal.AmountOf("uusdc"), usdc)), sdk.NewCoin("uatom", math.MinInt(bal.AmountOf("uatom"), atom)))
+				sc.Tx("amm.join", lp, J{"pool": pool.Id}, &ammtypes.MsgJoinPool{Sender: lp.Addr.String(), PoolId: pool.Id, MaxAmountsIn: join, ShareAmountOut: math.ZeroInt()})
+				sc.Empty(2 * time.Hour)
+			}
+		}
+	}
+}
